@@ -99,6 +99,10 @@ def smooth_program(algopy, name):
             q /= 4.0
             return algopy.sum(q * q)
         return g
+    if name == 'float and negative powers':
+        # integer-valued float exponents and negative integer exponents; the point may have
+        # negative entries (the harness only excludes zeros)
+        return lambda x: x[0] ** 2.0 * x[1] + x[1] ** 3.0 + x[0] * x[1] ** -3 + (x[0] * x[1]) ** -2.0
     if name == 'matrix-valued':
         return lambda x: algopy.outer(x, x * x) + algopy.outer(cv[:1] * np.ones(3), x) + Cm * x
     raise KeyError(name)
@@ -182,6 +186,9 @@ def h_driver(ctx, driver, N, M, m, kind='vector', smooth=None):
         mons, C = coeff_vars(ctx, M if kind != 'scalar' else 1, N, m)
         f = program(algopy, C, mons, kind)
     xs, x = point(ctx, N)
+    if smooth == 'float and negative powers':
+        for v in xs:
+            ctx.assume(v != 0)
     flat = lambda a: np.asarray(plain(np.asarray(a, dtype=object)), dtype=object)
     # reading a result must not change it, and can be repeated
     seedmap = {'jacobian': lambda: UTPM.init_jacobian(x), 'hessian': lambda: UTPM.init_hessian(x)}
@@ -347,6 +354,7 @@ def units(tier, seed):
     for drv in ('jacobian', 'jac_vec', 'hessian', 'hess_vec'):
         add('%s/smooth exp-sin/N2' % drv, 'h_driver', driver=drv, N=2, M=1, m=0, smooth='exp-sin')
         add('%s/constant operands of higher rank/N3' % drv, 'h_driver', driver=drv, N=3, M=1, m=0, smooth='constant operands')
+        add('%s/float and negative powers, base of either sign/N2' % drv, 'h_driver', driver=drv, N=2, M=1, m=0, smooth='float and negative powers')
         add('%s/in-place arithmetic/N3' % drv, 'h_driver', driver=drv, N=3, M=1, m=0, smooth='in-place')
         if drv in ('jacobian', 'jac_vec'):
             add('%s/matrix-valued result/N3' % drv, 'h_driver', driver=drv, N=3, M=1, m=0, smooth='matrix-valued')
